@@ -15,6 +15,7 @@ import (
 	"sync"
 	"sync/atomic"
 	"time"
+	"verif/engine/report"
 
 	"github.com/gocql/gocql"
 	"gopkg.in/inf.v0"
@@ -545,4 +546,27 @@ func sampleWanted(ts string) bool {
 		return true
 	}
 	return false
+}
+
+// guarded runs one type case; a panic while a decoded value is compared or printed
+// means gocql handed back a corrupt value (e.g. aliased big.Int / byte slices): that
+// is a violation of the case's type, not a harness crash.
+func guarded(r *report.Run, tc TypeCase, f func()) {
+	defer func() {
+		if p := recover(); p != nil {
+			stack := string(debug.Stack())
+			site := "unknown"
+			for _, l := range strings.Split(stack, "\n") {
+				if strings.HasPrefix(l, "math/big.") || strings.HasPrefix(l, "github.com/gocql/gocql.") || strings.HasPrefix(l, "reflect.") {
+					site = l
+					if i := strings.Index(site, "("); i > 0 {
+						site = site[:i]
+					}
+					break
+				}
+			}
+			r.Violation("corrupt-decoded-value:panic-while-inspecting:"+site, fmt.Sprintf("type %s: %v\n%s", tc.T, p, stack), map[string]string{"type": tc.T.String()})
+		}
+	}()
+	f()
 }
